@@ -575,7 +575,7 @@ func c18c(c *Ctx) {
 						if k > 1 {
 							prev = fmt.Sprintf("%s+%d", m[1], k-1)
 						}
-						if hasLit(must, "+("+prev+" < "+lenX+"-1)") {
+						if hasLit(must, "+"+ltTerm(prev, lenX+"-1")) {
 							ok, how = true, "j < len(x)-1 dominates x[j+1]"
 						}
 					}
